@@ -1,5 +1,5 @@
 """C07 - incomplete frames are reported as UnmarshalingException, never as a frame."""
-from pbt import strategies as S, wire
+from pbt import optchild, strategies as S, wire
 from pbt.lib import UnmarshalingException, call, frame, make_frame
 from pbt.runner import Component, Violation, lib_site
 
@@ -150,6 +150,12 @@ COMPONENTS = [
               exhaustive=True,
               describe='every strict prefix of one peer-made frame per method class '
                        '(all 19 table tags), headers with two flag words, body'),
+    Component('interpreter-flags', optchild.flagged('C07', check),
+              bulk=optchild.make_bulk('C07', ['fixed', 'catalogue'],
+                                      flags=('-bb', '-O')),
+              distinct_by_construction=True, shards={'quick': 1, 'thorough': 1},
+              describe='the fixed and catalogue prefix sweeps in child interpreters '
+                       'started with -bb (bytes warnings are errors) and -O'),
     Component('huge-bodies', check_huge, cases=huge_cases, nontrivial=lambda c: True,
               distinct_by_construction=True, shards={'quick': 10, 'thorough': 10},
               describe='body frames of 16 MiB - 1 .. 32 MiB + 1 bytes: prefixes around '
